@@ -21,8 +21,9 @@ def cmLine {L} (showL : L → String) (r : Option (List L × List (List Nat))) :
     let ova := splitOneVsAll m
     let ovo := splitOneVsOne m
     let half : Float32 := 0.5
+    let two : Float32 := 2
     s!"ok members={showList showL cs} cells={showCells m} acc={sh32 (accuracy m)} " ++
-    s!"prec={sh32 (precision m)} rec={sh32 (recall m)} f1={sh32 (fScore 1 m)} fh={sh32 (fScore half m)} " ++
+    s!"prec={sh32 (precision m)} rec={sh32 (recall m)} f1={sh32 (fScore 1 m)} fh={sh32 (fScore half m)} f2={sh32 (fScore two m)} " ++
     s!"mcc={sh32 (mcc m)} ova={showList3 toString ova} ovo={showList3 toString ovo} " ++
     s!"ovap={showList (fun s => sh32 (precision s)) ova} ovar={showList (fun s => sh32 (recall s)) ova} " ++
     s!"ovaf={showList (fun s => sh32 (fScore 1 s)) ova}"
@@ -115,6 +116,7 @@ def handlePearson (toks : List String) : Option String := do
 def handle (toks : List String) : String :=
   let r := match toks with
     | "cm" :: rest => handleCm rest
+    | "cmf" :: rest => (argNat rest "form").bind fun _ => handleCm rest
     | "roc" :: rest => handleRoc rest
     | "logloss" :: rest => handleLogLoss rest
     | "reg" :: rest => handleReg true rest
